@@ -7,7 +7,7 @@ BEN = os.path.join(engine.VERIF, "benign")
 def run(props=None):
     res = {"ran": True, "false_alarms": [], "clean": [], "skipped": []}
     files = [os.path.join(BEN, f) for f in sorted(os.listdir(BEN)) if f.endswith(".patch")]
-    for sub in ("agents", "agents2", "agents3", "agents4", "agents5", "agents6", "agents7", "agents8", "agents9"):
+    for sub in ("agents", "agents2", "agents3", "agents4", "agents5", "agents6", "agents7", "agents8", "agents9", "agents10"):
         ag = os.path.join(BEN, sub)
         if os.path.isdir(ag):
             files += [os.path.join(ag, f) for f in sorted(os.listdir(ag)) if f.endswith(".patch")]
